@@ -99,16 +99,20 @@ DB(P) == N2(VB(P))
 Parallel(P) == Cross(VA(P), VB(P)) = 0
 SameDir(P)  == Parallel(P) /\ Dot(VA(P), VB(P)) > 0
 OppDir(P)   == Parallel(P) /\ Dot(VA(P), VB(P)) < 0
-\* the average normal (nA - nB)/|nA - nB| is 0/0 for equally directed parallel segments
-Admissible(P) == P.nm = "fromA" \/ ~SameDir(P)
+\* degenerate inputs of the projection along the common normal (not queries of the model):
+\*  - the average normal (nA - nB)/|nA - nB| is 0/0 for equally directed parallel segments;
+\*  - with the normal of A as common normal a segment B perpendicular to A is parallel to the projection
+\*    direction: the 2x2 system of compute_intersection is singular (with the average normal of two
+\*    non-parallel segments this never happens: (nA - nB).nB = nA.nB - 1 # 0)
+Admissible(P) == IF P.nm = "fromA" THEN Dot(VA(P), VB(P)) # 0 ELSE ~SameDir(P)
 \* the common normal is the normal of A (exactly) for nm = fromA and for opposed parallel segments;
 \* otherwise its direction is irrational in general and the model makes no exact prediction
 HasExact(P) == P.nm = "fromA" \/ OppDir(P)
 
 \* tangential coordinate along A, scaled by |vA|: A is [0, dA], B is [SB1, SB2]
-S(P, x) == Dot(Sub(x, P.A[1]), VA(P))
-SB1(P) == S(P, P.B[1])
-SB2(P) == S(P, P.B[2])
+TanCoord(P, x) == Dot(Sub(x, P.A[1]), VA(P))
+SB1(P) == TanCoord(P, P.B[1])
+SB2(P) == TanCoord(P, P.B[2])
 EB(P)  == SB2(P) - SB1(P)
 In01(n, d) == (d > 0 /\ 0 <= n /\ n <= d) \/ (d < 0 /\ d <= n /\ n <= 0)
 
@@ -238,7 +242,7 @@ InitPair ==
   \/ \E A \in Segments(N), B \in Segments(N), nm \in {"fromA", "avg"} :
         Parallel(Pair(A, B, nm)) /\ Admissible(Pair(A, B, nm)) /\ q = Pair(A, B, nm)
   \/ \E A \in Segments(NG), B \in Segments(NG), nm \in {"fromA", "avg"} :
-        ~Parallel(Pair(A, B, nm)) /\ q = Pair(A, B, nm)
+        ~Parallel(Pair(A, B, nm)) /\ Admissible(Pair(A, B, nm)) /\ q = Pair(A, B, nm)
 InitChain == \E X \in ChainSets, Y \in ChainSets, h \in -1..2 : q = [kind |-> "chain", xb |-> X, ya |-> Y, h |-> h]
 InitPen == \E f \in [1..NSamp -> -PhiMax..PhiMax] : q = [kind |-> "pen", phi |-> f]
 InitLs == \E o \in Obstacles, e \in LsEdges :
